@@ -91,16 +91,40 @@ def domain_graph(g: GSpec, S, Z):
     return dg, order
 
 
+TARGET_TAGGED = "@target"  # marker in S_k: the domain is the target population itself (tag pi*, no transport nodes)
+
+
+def real_S(S):
+    return set(S) - {TARGET_TAGGED}
+
+
 def build_inputs(g: GSpec, domains):
-    """domains: list of (S_k, Z_k).  Returns (domain_graphs, domain_data)."""
-    from y0.dsl import PP, Variable
+    """domains: list of (S_k, Z_k).  Returns (domain_graphs, domain_data).  A domain whose S_k holds the marker
+    TARGET_TAGGED is data from the target population under the policy on Z_k: it carries the tag pi*."""
+    from y0.dsl import PP, TARGET_DOMAIN, Variable
 
     dgs, dd = [], []
     for k, (S, Z) in enumerate(domains):
-        dg, order = domain_graph(g, S, Z)
+        dg, order = domain_graph(g, real_S(S), Z)
         dgs.append((dg, order))
-        dd.append(({Variable(z) for z in Z}, PP[Variable(POPS[k])]([Variable(n) for n in g.nodes])))
+        tag = TARGET_DOMAIN if TARGET_TAGGED in S else Variable(POPS[k])
+        dd.append(({Variable(z) for z in Z}, PP[tag]([Variable(n) for n in g.nodes])))
     return dgs, dd
+
+
+def retag(expr, old, new):
+    """The expression with every PP[old](...) term re-tagged PP[new](...)."""
+    from y0.dsl import Fraction, PopulationProbability, Product, Sum, Variable
+
+    if isinstance(expr, PopulationProbability):
+        return PopulationProbability(population=Variable(new), distribution=expr.distribution) if expr.population.name == old else expr
+    if isinstance(expr, Product):
+        return Product(tuple(retag(f, old, new) for f in expr.expressions))
+    if isinstance(expr, Fraction):
+        return Fraction(retag(expr.numerator, old, new), retag(expr.denominator, old, new))
+    if isinstance(expr, Sum):
+        return Sum(retag(expr.expression, old, new), expr.ranges)
+    return expr
 
 
 def run_ctftru(g: GSpec, ev, domains):
@@ -249,8 +273,13 @@ def check_case(g, ev, domains, expr, revent, timeout_ms, delta=()):
     from y0.dsl import Zero
 
     out = {"queries": 0, "unsat": 0, "sat": 0, "unknown": 0, "secs": 0.0, "violation": None, "skip": None}
-    differs = {POPS[k]: set(S) for k, (S, Z) in enumerate(domains)}
+    differs = {POPS[k]: real_S(S) for k, (S, Z) in enumerate(domains)}
     policy = {POPS[k]: set(Z) for k, (S, Z) in enumerate(domains)}
+    for k, (S, Z) in enumerate(domains):
+        if TARGET_TAGGED in S:
+            # the only pi*-tagged data on offer is this domain's: the terms PP[pi*](...) of the answer denote the
+            # target population under the policy on Z_k, modelled as the harness population POPS[k]
+            expr = retag(expr, TARGET, POPS[k])
     model = SymL3(g, differs=differs, policy=policy)
     den = Denoter(model, default_pop="__plain__", vocab=vocab(g, domains))
     truth = model.prob_cw(TARGET, atoms_for_model(tuple(ev) + tuple(delta)))
@@ -419,6 +448,9 @@ def domain_sets(nodes, max_s=None):
         for S in itt.combinations(nodes, k):
             for Z in [()] + [(z,) for z in nodes]:
                 out.append((frozenset(S), frozenset(Z)))
+    # experimental data collected in the target population itself (tag pi*, a policy on one variable)
+    for z in nodes:
+        out.append((frozenset({TARGET_TAGGED}), frozenset({z})))
     return out
 
 
